@@ -114,9 +114,8 @@ def parseEvData (abs : String) : EvData × String :=
 
 /-! ### scheduler -/
 
-/-- The runnable head item with the smallest stamp: `(stamp, isConn, actor id)`. -/
-def nextRunnable (g : Gw) : Option (Nat × Bool × Nat) :=
-  let cands : List (Nat × Bool × Nat) :=
+/-- The runnable actors with the stamp of their head item: `(stamp, isConn, actor id)`. -/
+def runnable (g : Gw) : List (Nat × Bool × Nat) :=
     g.entries.filterMap (fun (eid, e) =>
       match e.locks with
       | some (_, (st, _) :: _) => some (st, false, eid)
@@ -128,9 +127,23 @@ def nextRunnable (g : Gw) : Option (Nat × Bool × Nat) :=
       match c.queue with
       | (st, _) :: _ => some (st, true, c.cid)
       | [] => none)
-  cands.foldl (fun best c => match best with
-    | none => some c
-    | some b => if c.1 < b.1 then some c else some b) none
+
+/-- The workers of the gateway (one goroutine per busy connection and cache entry) run
+    concurrently; which of the runnable actors takes its next item is a parameter of the model
+    (`Gw.sched`): 0 = the head item enqueued first (global FIFO), 1 = the head item enqueued last
+    (a chain of consequences runs to its end before older work), ≥ 2 = a pseudo-random choice.
+    Every actor still takes its own items in queue order. No property depends on the policy. -/
+def nextRunnable (g : Gw) : Option (Nat × Bool × Nat) :=
+  let cands := runnable g
+  match g.sched with
+  | 0 => cands.foldl (fun best c => match best with
+      | none => some c
+      | some b => if c.1 < b.1 then some c else some b) none
+  | 1 => cands.foldl (fun best c => match best with
+      | none => some c
+      | some b => if c.1 > b.1 then some c else some b) none
+  | s => if cands.isEmpty then none else
+      cands[(lcg (s * 1000003 + g.schedCtr * 7919) / 65536) % cands.length]?
 
 /-- One small step of the actor `(isConn, id)`: process its head item. -/
 def stepActor (isConn : Bool) (id : Nat) : M Unit := do
@@ -161,6 +174,7 @@ partial def drain (fuel : Nat) : M Unit := do
   match nextRunnable g with
   | none => pure ()
   | some (_, isConn, id) =>
+    modify fun g => { g with schedCtr := g.schedCtr + 1 }
     stepActor isConn id
     drain (fuel - 1)
 
